@@ -95,6 +95,7 @@ func (c *Ctx) buildTypeBatches(sel shapeSel) []TypeBatch {
 	if perBatch < 1 {
 		perBatch = 1
 	}
+	nb := (len(specs) + perBatch - 1) / perBatch
 	for bi := 0; len(specs) > 0; bi++ {
 		k := perBatch
 		if k > len(specs) {
@@ -131,9 +132,13 @@ func (c *Ctx) buildTypeBatches(sel shapeSel) []TypeBatch {
 				add(all[s.enum], "enum")
 			}
 		}
-		if bi == 0 && sel.ExtraTypes != nil {
-			for _, t := range sel.ExtraTypes(std) {
-				add(t, "extra")
+		if sel.ExtraTypes != nil {
+			// the extra shapes are spread over the batches in runs of 8 (neighbours stay together), so that no
+			// single package and monitor process carries all of them
+			for ei, t := range sel.ExtraTypes(std) {
+				if (ei/8)%nb == bi {
+					add(t, "extra")
+				}
 			}
 		}
 		if len(b.Items) > 0 {
